@@ -88,6 +88,19 @@ Theorem C14_recode_unfixed_refuted :
 Proof. exact witness_refuted. Qed.
 Print Assumptions C14_recode_unfixed_refuted.
 
+(* The stride-detection side channel (stride_detection_quality > 2): after any number n of literal
+   block types the score array is large enough for choose_stride's assertion and for every read
+   it makes.  As found the assertion asked for 8 more entries than update_block_type provides and
+   fired for n = 3, 7, 15, ... (replayed: quality 6, 30 kB of mixed text, parameter 152 = 4
+   panicked inside compress_stream; fix 2b60b9a). *)
+Theorem C14_stride_assert : forall n : nat,
+  choose_stride_ok n = true /\ forall index, index < N.of_nat n -> (1 + index) * 8 + 8 <= score_len n.
+Proof. exact choose_stride_holds. Qed.
+Print Assumptions C14_stride_assert.
+Theorem C14_stride_assert_unfixed_refuted : choose_stride_ok_unfixed 3 = false /\ choose_stride_ok_unfixed 7 = false.
+Proof. exact choose_stride_unfixed_fails. Qed.
+Print Assumptions C14_stride_assert_unfixed_refuted.
+
 (* Non-vacuity: the hypotheses of C14_recode are met by that meta-block and its IR replays. *)
 Example C14_nonvacuous :
   forall (dict_word : N -> N -> list N) (transforms : list (list N * N * list N)),
